@@ -7,4 +7,8 @@ S5_30 == {5, 30}
 S30 == {30}
 RBoth == BOOLEAN
 RTrue == {TRUE}
+R1 == {1}
+R12 == {1, 2}
+\* a small menu of registry answers for three endpoints: grow, shrink or only an attribute changes, swap (the first goes to the inactive list), lose the others
+A3 == {[a |-> {1, 2, 3}, i |-> {}, v |-> FALSE], [a |-> {1, 2}, i |-> {}, v |-> TRUE], [a |-> {2, 3}, i |-> {1}, v |-> FALSE], [a |-> {1}, i |-> {}, v |-> FALSE]}
 ====
